@@ -154,6 +154,10 @@ def _chunk(params, lo, hi):
             # tiny iteration budgets: the answer may be MAX_ITER (exempt) but never a wrong verdict
             runs += [("solve_lp", solve_lp, check_simplex, {"max_iter": k}) for k in (1, 2, 3)]
             runs += [("solve_lp_interior", solve_lp_interior, check_interior, {"max_iter": k}) for k in (1, 2, 4, 8)]
+            # looser tolerances: the documented claims (OPTIMAL only with a matching optimum within the solver's tolerance,
+            # FEASIBLE only within the 0.01 residual) are stated independently of eps
+            runs += [("solve_lp_interior", solve_lp_interior, check_interior, {"eps": 1e-6, "max_iter": 8}), ("solve_lp_interior", solve_lp_interior, check_interior, {"eps": 1e-6, "max_iter": 3})]
+            runs += [("solve_lp", solve_lp, check_simplex, {"eps": 1e-7})]
         for fname, fn, chk, kw in runs:
             if solver != "both" and solver != fname:
                 continue
